@@ -168,6 +168,8 @@ def check_group(rep, M, L, inp):
                 counts[n] = counts.get(n, 0) + 1
                 if n <= min(L, 5):
                     images[w] = np.asarray(can[word], dtype=float)
+                    if not np.all(np.isfinite(images[w])):
+                        rep.fail("distinct_normal_forms_have_distinct_images", f"the canonical image of the normal form {word!r} has non-finite entries (distinctness would hold vacuously)", {**inp, "word": word}); return False
     # growth series: accepted shortlex words of length n = number of group elements of length n
     for n in range(0, L + 1):
         elems = {orc.info(w)[1] for w in itertools.product(range(rank), repeat=n) if orc.info(w)[0]}
